@@ -8,7 +8,7 @@ package redis
 
 //@ func crc16
 //@   mode bv
-//@   prop C12 C11 C03 C04
+//@   prop C12 C11 C03 C04 C14 C07
 //@   modifies nothing
 //@   ensures @xmodem crc == crcfold(b, len(b))
 //@   unfold crcfold(b, 0)
@@ -19,7 +19,7 @@ package redis
 //@   loop 0 unfold crcfold(b, i+1)
 
 //@ func hashtag
-//@   prop C12 C11 C03 C04
+//@   prop C12 C11 C03 C04 C14 C07
 //@   modifies nothing
 //@   ensures @whole (tagopen(b) == len(b) || tagclose(b) == len(b) || tagclose(b) == tagopen(b)+1) ==> result == b
 //@   ensures @inner !(tagopen(b) == len(b) || tagclose(b) == len(b) || tagclose(b) == tagopen(b)+1) ==> sameslice(result, b[tagopen(b)+1:tagclose(b)])
@@ -154,7 +154,7 @@ package redis
 
 //@ func (*upstream).chooseHost
 //@   prop C03 C12 C14 C11
-//@   alsoprop C04 : slot-owner-for-writes master-strategy
+//@   alsoprop C04 C07 : slot-owner-for-writes master-strategy
 //@   alsoprop C04 C07 C02 C01 : no-panic
 //@   requires u != nil && req != nil && req.body != nil && len(req.body.Array) > 0 && u.cfg != nil
 //@   requires @replicas-wellformed forall s int, k int :: 0 <= s && s < 16384 && u.slots[s] != nil && 0 <= k && k < len(u.slots[s].Replicas) ==> u.slots[s].Replicas[k] != nil
@@ -200,6 +200,8 @@ package redis
 //@   ensures @stream-window b.err == nil ==> windowok(b)
 //@   ensures @consumes-nothing b.err == nil ==> rpos(b) == old(rpos(b))
 //@   ensures @source-unchanged b.rd == old(b.rd)
+//@   callpre Read @the-source-is-offered-all-the-room-not-occupied-by-unread-bytes len(arg1) == len(b.buf) - (old(b.w) - old(b.r))
+//@   alsoprop C01 C02 : the-source-is-offered-all-the-room-not-occupied-by-unread-bytes progress
 
 //@ func (*Reader).ReadByte
 //@   prop C10 C11
@@ -325,6 +327,7 @@ package redis
 //@   modifies d.br.r, d.br.w, d.br.err, d.br.buf[0:len(d.br.buf)], d.br.slice.allocs, d.br.slice.buf, d.br.slice.buf[0:len(d.br.slice.buf)], fetched
 //@   ensures @ri decoderOK(d) && d.br == old(d.br)
 //@   ensures @bounded result1 == nil ==> len(result0) <= 536870912
+//@   proves @null-only-for-a-header-of-minus-one-otherwise-as-many-bytes-as-the-header-says result1 == nil ==> (isnil(result0) == (n == 0 - 1)) && (n >= 0 ==> len(result0) == n)
 //@   ensures @bulk-does-not-alias-the-read-buffer result1 == nil && !isnil(result0) ==> disjoint(result0, d.br.buf)
 //@   ensures @bulk-is-the-stream-before-its-terminator result1 == nil && !isnil(result0) ==> stream[src(d.br)][rpos(d.br) - 2] == 13 && stream[src(d.br)][rpos(d.br) - 1] == 10 && forall k int :: 0 <= k && k < len(result0) ==> result0[k] == stream[src(d.br)][rpos(d.br) - 2 - len(result0) + k]
 //@   ensures @slab-only-shrinks-or-is-new fresh(d.br.slice.buf) || (within(d.br.slice.buf, old(d.br.slice.buf)) && withincap(d.br.slice.buf, old(d.br.slice.buf)))
@@ -339,6 +342,8 @@ package redis
 //@   modifies d.depth, d.err, d.br.r, d.br.w, d.br.err, d.br.buf[0:len(d.br.buf)], d.br.slice.allocs, d.br.slice.buf, d.br.slice.buf[0:len(d.br.slice.buf)], fetched
 //@   ensures @ri d.br == old(d.br) && decoderOK(d)
 //@   ensures @bounded result1 == nil ==> len(result0) <= 1048576
+//@   proves @null-only-for-a-header-of-minus-one-otherwise-as-many-elements-as-the-header-says result1 == nil ==> (isnil(result0) == (n == 0 - 1)) && (n >= 0 ==> len(result0) == n)
+//@   alsoprop C03 : null-only-for-a-header-of-minus-one-otherwise-as-many-elements-as-the-header-says
 //@   loop 0 invariant d.br == old(d.br) && decoderOK(d) && len(array) == n && n <= 1048576 && d.depth == old(d.depth) + 1 && d.depth <= 32
 //@   loop 0 invariant fresh(array) && (fresh(d.br.slice.buf) || (within(d.br.slice.buf, old(d.br.slice.buf)) && withincap(d.br.slice.buf, old(d.br.slice.buf))))
 //@   ensures @slab-only-shrinks-or-is-new fresh(d.br.slice.buf) || (within(d.br.slice.buf, old(d.br.slice.buf)) && withincap(d.br.slice.buf, old(d.br.slice.buf)))
@@ -627,6 +632,8 @@ package redis
 
 //@ func (*FilterChain).Do
 //@   prop C11 C13 C02
+//@   callpre Filter).Do @every-filter-sees-the-lower-cased-command-name-and-this-request arg1 == lower(old(str(r.body.Array[0].Text))) && arg2 == r
+//@   alsoprop C19 C14 : every-filter-sees-the-lower-cased-command-name-and-this-request
 //@   consumes r if result == "Stop"
 //@   requires c != nil && r != nil && r.body != nil && len(r.body.Array) >= 1
 //@   modifies all
@@ -868,6 +875,8 @@ package redis
 //@ func (*upstream).MakeRequestToHost
 //@   prop C02 C04 C20 C01
 //@   alsoprop C11 : no-panic
+//@   callpre getClient @no-connection-is-looked-up-or-dialled-unless-the-upstream-was-just-found-running polledopen(u.quit)
+//@   alsoprop C09 C07 : no-connection-is-looked-up-or-dialled-unless-the-upstream-was-just-found-running
 //@   callpre SetResponse @locally-built-replies-are-one-line oneline(arg1)
 //@   consumes req
 //@   requires req != nil && req.body != nil && len(req.body.Array) >= 1
@@ -1105,6 +1114,10 @@ package redis
 //@   modifies all
 //@   ensures @a-new-client-has-its-done-channel result1 == nil ==> result0 != nil && result0.done != nil
 //@   ensures @keeps-the-config-object-it-is-given result1 == nil ==> result0.cfg == cfg
+// (the smallest request, "*1 $1 x", takes 11 bytes on the wire and the processing queue takes 1024 requests: with a
+// write buffer of 11*1024 bytes or more the writer could block on a full queue of requests the backend has never seen)
+//@   callpre newEncoder @a-full-write-buffer-holds-fewer-requests-than-the-processing-queue-can-take arg1 < 11 * 1024
+//@   alsoprop C02 : a-full-write-buffer-holds-fewer-requests-than-the-processing-queue-can-take
 //@   alsoprop C13 C14 : keeps-the-config-object-it-is-given
 
 //@ func (*upstream).createClient
